@@ -15,3 +15,6 @@ Definition STORE_ERR : Z := 10.                               (* = ERR_REG of mo
 Definition store_const_DefaultStorageLimit : Z := MODULE_DEFAULT_LIMIT.
 Definition STORE_ERR_SDK : Z := 7.                            (* sdkerrors.ErrInvalidAddress *)
 Definition Addr_bytes_Empty (a : list N) : bool := match a with [] => true | _ => false end.   (* AccAddress.Empty(): len == 0 *)
+Definition store_const_MaxBlockSubmissionsKeepInState : Z := 20000.   (* types.MaxBlockSubmissionsKeepInState: the export cap (a translator constant, see Generated.v consts) *)
+Definition store_prepend {A} (x : list A) (y : A) : list A := y :: x.   (* prependBlock / prependTimestamp of keeper/record.go *)
+Definition store_const_MaxHashSubmissionsToExport : Z := 20000.       (* x/beacon types.MaxHashSubmissionsToExport *)
